@@ -2,6 +2,7 @@ SPECIFICATION DispSpec
 CONSTANTS
   NP = 3
   MaxCalls = 2
+  NFull = 2
   MaxOps = 100000
   LogOn = FALSE
   U = "mc2"
